@@ -39,9 +39,14 @@ TRUSTED = ['flattening of ODL elements to coordinate vectors and unit-vector ext
 ASSUMPTIONS = ['floating point rounding is outside the model: all matrix entries and weights '
                'are dyadic by construction so the oracle is exact; classes with irrational '
                'entries (Fourier, wavelet) are compared with relative tolerance 1e-9',
-               'opaque leaves (finite differences, resizing, Fourier, wavelets) enter adj_sound '
-               'through the hypothesis LeafOK, which the oracle decides on spaces with <= 12 '
+               'opaque leaves (finite differences, resizing, Fourier, wavelets, MatrixOperator with '
+               'axis/sparse/n-d, F-order flattening, n-d sampling) enter adj_sound through the '
+               'hypothesis Pair of Leaf.opaque, which the oracle decides on spaces with <= 12 '
                'entries only (finite differences / resizing have their own proofs in C13/C16)',
+               'the model gives the value of the repaired adjoints of MatrixOperator, Sampling and '
+               'Flattening by one formula (W_dom^-1 M^H W_ran, vector multiple by cv/W); the code '
+               'returns the bare operator / a scalar multiple / a vector multiple depending on the '
+               'weighting class: same action, compared through the matrices',
                'near-equal weights (np.isclose fudge in PointwiseInnerAdjoint) are not generated',
                'documented-approximate adjoints are exempt: Resampling, RayTransform, LinDeform*']
 KNOWN_EXPLAINS_DISAGREEMENT = False
